@@ -90,12 +90,19 @@ NONE = ['n']
 
 
 def flat_key(k):
+    """(k2, (k1, (k0,))) -> [k2, k1, k0]; anything that is not an integer index (a mutated
+    operator may put sentinels or wrong nesting there) becomes -999, which no contract
+    expects"""
+    def comp(x):
+        return x if isinstance(x, int) and not isinstance(x, bool) and -2**31 < x < 2**31 else -999
     out = []
-    while isinstance(k, tuple) and len(k) == 2:
-        out.append(k[0])
+    depth = 0
+    while isinstance(k, tuple) and len(k) == 2 and depth < 64:
+        out.append(comp(k[0]))
         k = k[1]
+        depth += 1
     if isinstance(k, tuple) and len(k) == 1:
-        out.append(k[0])
+        out.append(comp(k[0]))
     else:
         out.append(-999)
     return out
